@@ -889,6 +889,24 @@ fn gen_and_record<T: Sc>(mode: &str, count: usize, rng: &mut StdRng) -> Vec<RunO
             }
         }
         "c09" => {
+            // fit_with_statistics on fits that run out of patience (a failed fit: no statistics)
+            {
+                let mut j = 0usize;
+                let mut made = 0;
+                while made < 4 {
+                    let mut rs = exp_run::<T>(j, true, rng);
+                    j += 1;
+                    if rs.mrhs {
+                        continue;
+                    }
+                    rs.cert = None;
+                    rs.with_stats = true;
+                    rs.cfg = LmCfg { patience: 1, ..LmCfg::default() };
+                    rs.label = format!("{} statistics of a fit that lost patience", rs.label);
+                    outs.push(record_run(&rs));
+                    made += 1;
+                }
+            }
             // fault enumeration: every model call index of the fault free run, transient and persistent
             let mut i = 0usize;
             let mut budget = count;
@@ -1026,7 +1044,9 @@ fn rel_close<T: Sc>(a: &[T], b: &[T], tol: f64) -> f64 {
     }
     a.iter().zip(b.iter()).fold(0.0f64, |m, (x, y)| {
         let (x, y) = (x.to64(), y.to64());
-        m.max((x - y).abs() / (1.0 + x.abs().max(y.abs())))
+        let d = (x - y).abs() / (1.0 + x.abs().max(y.abs()));
+        // (f64::max ignores NaN: a value that is NaN or infinite on one side only must not vanish)
+        if d.is_nan() && !(x.is_nan() && y.is_nan()) && x != y { f64::INFINITY } else { m.max(d) }
     }) / tol
 }
 
@@ -1080,6 +1100,13 @@ fn run_pairs_t<T: Sc>(count: usize, rng: &mut StdRng, rep: &mut Report) {
                 w[3] = T::zero();
                 w[7] = -w[7];
             }
+            // on every eighth instance no weight is positive and one is zero (the largest weight is 0)
+            if i % 8 == 3 && w.len() > 8 {
+                for v in w.iter_mut() {
+                    *v = -*v;
+                }
+                w[2] = T::zero();
+            }
         }
         if let Some(w) = base.w.clone() {
             let mut twin = base.clone();
@@ -1098,7 +1125,11 @@ fn run_pairs_t<T: Sc>(count: usize, rng: &mut StdRng, rep: &mut Report) {
                 let ds = match (&fa.chi2_cov, &fb.chi2_cov) {
                     (Some((c1, v1)), Some((c2, v2))) => rel_close(&[*c1], &[*c2], t8).max({
                         let sc = v1.iter().fold(0.0f64, |m, v| m.max(v.to64().abs()));
-                        v1.iter().zip(v2.iter()).fold(0.0f64, |m, (x, y)| m.max((x.to64() - y.to64()).abs() / sc.max(1e-300))) / t7
+                        v1.iter().zip(v2.iter()).fold(0.0f64, |m, (x, y)| {
+                            let d = (x.to64() - y.to64()).abs() / sc.max(1e-300);
+                            // (a NaN on one side only must not vanish in the maximum)
+                            if d.is_nan() && !(x.to64().is_nan() && y.to64().is_nan()) { f64::INFINITY } else { m.max(d) }
+                        }) / t7
                     }),
                     (None, None) => 0.0,
                     _ => f64::INFINITY,
